@@ -156,6 +156,15 @@ CLAIMED = {
     note="Uniform plasma along the beam (attenuation integral exact); non-uniform profiles only through the C01 scenes; points between attenuation nodes compared within the linear-interpolation bound.",
     technique="TLA+ exact integer ingredient table enumerated by TLC, one density/direction evaluation per row + argument trace check",
     design="4.4"),
+ "C12": dict(
+    text="FluxMap.tla gives, for synthetic Solov'ev-type equilibria psi = s (A (r-R0)^2 + B z^2) of either sign on an integer grid, at every node: normalised flux (clamped), the LCFS decision "
+         "(inside polygon AND psi_n <= 1), a linear profile mapped / outside value, the exact gradient and the un-normalised poloidal / normal directions, 6 rational toroidal angles; TLC checks psi_n >= 0, "
+         "orthogonality, normal = poloidal x toroidal, B.n = 0, equal lengths, up-down symmetry. 2 352 rows are compared on a real EFITEquilibrium (psi_normalised, inside_lcfs, map2d with function and 2xN "
+         "array profiles, map3d, b_field inside/vacuum, poloidal_vector, surface_normal, map_vector2d/3d incl. the magnetic axis and the midplane) and the same identities are evaluated with recorded inputs at "
+         "seeded random points of the bundled example and Generomak equilibria.",
+    note="Exactness only at grid nodes of quadratic psi; interpolation accuracy between nodes and the bundled data files themselves are not checked.",
+    technique="TLA+ exact node table enumerated by TLC, one evaluation per row on a real equilibrium; identities with recorded inputs on bundled equilibria",
+    design="4.12"),
 }
 
 NOT_YET = {}
